@@ -4,6 +4,7 @@ import hashlib
 import json
 import os
 import pickle
+import re
 import subprocess
 
 from . import adapter, batch, oracle, universe
@@ -114,7 +115,8 @@ def run(placed, settings, name, depth=2, want_str=False, limit=600, use_cache=Tr
         wc.flags = a.get("flags")
         wc.locate = a.get("locate")
         wc.pretty = a.get("pretty") if keep_pretty else None
-        wc.ingest = (a.get("ops") or [{"status": "abort"}])[0]
+        _ops = a.get("ops") or [{"status": "abort"}]
+        wc.ingest = next((o for o in _ops if o.get("status") != "ok"), _ops[0])
         wc.render = a.get("render")
         wc.syn_ok = a.get("syn_ok")
         wc.compiled = None
@@ -133,7 +135,7 @@ def run(placed, settings, name, depth=2, want_str=False, limit=600, use_cache=Tr
             loc = (a.get("locate") or {}).get(wc.placed["target"]) or {}
             ident = loc.get("ident")
         else:
-            tid = wc.ingest.get("type_id")
+            tid = next((o.get("type_id") for o in reversed(a.get("ops") or []) if o.get("type_id") is not None), None)
             ident = None
             for t in a["api"]["types"]:
                 if t["id"] == tid:
@@ -142,6 +144,7 @@ def run(placed, settings, name, depth=2, want_str=False, limit=600, use_cache=Tr
             wc.ingest = {"status": "unlocated", "msg": "target type not found through add_type($ref)/root id"}
             continue
         types = {}
+        alias = []
         if ident and isinstance(ident, str) and mode != "check":
             wc.ident = ident.replace(" ", "")
             tb = traits_by_type(a.get("scan"))
@@ -149,11 +152,17 @@ def run(placed, settings, name, depth=2, want_str=False, limit=600, use_cache=Tr
             kinds = ["de"]
             if want_str:
                 kinds += str_probe_kinds(wc.traits)
+            named = {it.get("name") for it in (a.get("scan") or {}).get("mods", {}).get("", []) if it.get("kind") in ("struct", "enum", "type")}
+            if wc.ident not in named:
+                # the located type is not a named item (e.g. add_type_with_name returned u8 or Vec<Foo>): probe it through an alias
+                # declared inside the case's module, where relative paths resolve
+                alias = ["pub type VerifTarget = %s;" % ident]
+                wc.ident = "VerifTarget"
             types = {wc.ident: kinds}
         elif ident and isinstance(ident, str):
             wc.ident = ident.replace(" ", "")
         deco = decorate(wc, a) if decorate else {}
-        bcases.append(batch.Case(wc.key, a["pretty"], types, asserts=deco.get("asserts"), wrap_mod=deco.get("wrap_mod"), extra=deco.get("extra", "")))
+        bcases.append(batch.Case(wc.key, a["pretty"] + "\n" + "\n".join(alias), types, asserts=deco.get("asserts"), wrap_mod=deco.get("wrap_mod"), extra=deco.get("extra", "")))
     if bcases:
         b = batch.Batch(name, bcases, mode=mode)
         comp = b.compile()
@@ -176,6 +185,14 @@ def run(placed, settings, name, depth=2, want_str=False, limit=600, use_cache=Tr
         if not instances:
             continue
         doc = wc.placed["doc"]
+        if "instances" in wc.placed:
+            # the family supplies its own candidates (C04: serialized values of the original Rust type)
+            for v in wc.placed["instances"]:
+                rec = {"v": v, "flags": [], "valid": True, "res": None, "str": {}}
+                wc.instances.append(rec)
+                probes.append((wc.key, wc.ident, "de", json.dumps(v)))
+                index.append((rec, "de"))
+            continue
         univ, trunc = universe.universe(doc, wc.placed["target"], depth=depth, limit=limit)
         wc.truncated = trunc
         orc = oracle.Oracle(doc if wc.placed["target"] is None else doc, clip_i64=clip_i64)
